@@ -8,6 +8,7 @@ import (
 	"fmt"
 	"sort"
 	"sync"
+	"sync/atomic"
 	"testing"
 	"time"
 
@@ -20,7 +21,7 @@ type verifOllaStep struct {
 	Kind  map[string]string   `json:"kind"`
 	Lists map[string][]string `json:"lists"`
 	E     string              `json:"e"`
-	B     bool                `json:"b"`
+	B     string              `json:"b"` // up | sick | down
 	S     []string            `json:"S"`
 	Route string              `json:"route"`
 	Model string              `json:"model"`
@@ -98,12 +99,19 @@ func TestVerif_Olla(t *testing.T) {
 			return
 		}
 		defer stk.Close()
+		var curAnth atomic.Bool // the request in flight is on the Anthropic route: answer with a completion
 		byName := map[string]*zzverif.Backend{}
 		for _, be := range stk.backends {
 			be := be
 			byName[be.Name] = be
 			be.OnAttempt = func(r *zzverif.Recv) zzverif.Plan {
 				emit("BackendRecv", "e", be.Name, "target", r.Target)
+				if r.Target == "/v1/messages" { // a backend with native Anthropic support is spoken to in its own dialect
+					return zzverif.Plan{Kind: "ok", Status: 200, Body: verifHdrAnthropicAnswer}
+				}
+				if curAnth.Load() {
+					return zzverif.Plan{Kind: "ok", Status: 200, Body: verifOpenAICompletion}
+				}
 				return zzverif.Plan{Kind: "ok", Status: 200, N: 2}
 			}
 		}
@@ -112,8 +120,10 @@ func TestVerif_Olla(t *testing.T) {
 		for _, st := range steps[1:] {
 			switch st.Op {
 			case "up":
-				byName[st.E].SetDown(!st.B)
-				if st.B {
+				byName[st.E].SetDown(st.B == "down")
+				if st.B == "sick" {
+					byName[st.E].HealthStatus.Store(503)
+				} else {
 					byName[st.E].HealthStatus.Store(200)
 				}
 				emit("Up", "e", st.E, "b", st.B)
@@ -130,11 +140,18 @@ func TestVerif_Olla(t *testing.T) {
 				if st.Route != "proxy" {
 					prefix = "/olla/" + st.Route
 				}
+				curAnth.Store(st.Route == "anthropic")
 				emit("Req", "route", st.Route, "model", st.Model)
 				body := fmt.Sprintf(`{"model":%q,"messages":[{"role":"user","content":"s%d-%d"}]}`, st.Model, sn, reqNo)
-				res := zzverif.Do(stk.addr, &zzverif.Req{Method: "POST", Target: prefix + "/v1/chat/completions",
-					Headers: []string{"Content-Type: application/json", fmt.Sprintf("X-Verif-Req: o%d-%d", sn, reqNo)},
-					Body:    []byte(body), Timeout: 20 * time.Second})
+				target := prefix + "/v1/chat/completions"
+				hdrs := []string{"Content-Type: application/json", fmt.Sprintf("X-Verif-Req: o%d-%d", sn, reqNo)}
+				if st.Route == "anthropic" {
+					body = fmt.Sprintf(`{"model":%q,"max_tokens":32,"messages":[{"role":"user","content":"s%d-%d"}]}`, st.Model, sn, reqNo)
+					target = "/olla/anthropic/v1/messages"
+					hdrs = append(hdrs, "anthropic-version: 2023-06-01")
+				}
+				res := zzverif.Do(stk.addr, &zzverif.Req{Method: "POST", Target: target, Headers: hdrs,
+					Body: []byte(body), Timeout: 20 * time.Second})
 				code := res.Status
 				if res.NoResp {
 					code = 0
